@@ -106,6 +106,9 @@ static int ref_decode_kill(const unsigned char *p, size_t n, struct ref_kill *k)
 	}
 	return k->weapon_set && k->action_set ? 0 : -1;
 }
+/* number of string members (how, notes) decoded inside a `run` array element whose decoding then
+ * failed — only used to attribute a known leak of the generated unmarshal code, not for verdicts */
+static int ref_partial_run_strings;
 static int ref_decode_run(const unsigned char *p, size_t n, struct ref_run *u)
 {
 	struct ref_in in = { p, n };
@@ -130,6 +133,7 @@ static int ref_decode_msg(const unsigned char *p, size_t n, struct ref_msg *m)
 {
 	struct ref_in in = { p, n };
 	memset(m, 0, sizeof *m);
+	ref_partial_run_strings = 0;
 	while (in.n > 0) {
 		uint32_t tag, len; int r;
 		if (ref_header(&in, &tag, &len) < 0) return -1;
@@ -137,7 +141,9 @@ static int ref_decode_msg(const unsigned char *p, size_t n, struct ref_msg *m)
 		case 1: if (m->from_set) return -1; if ((r = ref_string(&in, len, m->from, sizeof m->from))) return r; m->from_set = 1; break;
 		case 2: if (m->to_set) return -1; if ((r = ref_string(&in, len, m->to, sizeof m->to))) return r; m->to_set = 1; break;
 		case 3: if (m->attack_set) return -1; if ((r = ref_decode_kill(in.p, len, &m->attack))) return r; in.p += len; in.n -= len; m->attack_set = 1; break;
-		case 4: if (m->n_run >= 3) return -2; if ((r = ref_decode_run(in.p, len, &m->run[m->n_run]))) return r; in.p += len; in.n -= len; m->n_run++; break;
+		case 4: if (m->n_run >= 3) return -2;
+			if ((r = ref_decode_run(in.p, len, &m->run[m->n_run]))) { ref_partial_run_strings = m->run[m->n_run].how_set + m->run[m->n_run].n_notes; return r; }
+			in.p += len; in.n -= len; m->n_run++; break;
 		default: return -1;
 		}
 	}
